@@ -1,4 +1,5 @@
 """C07: Askaryan pulses obey their scaling laws and fail gracefully (ZHS, AVZ, ARZ models)."""
+import hashlib
 import importlib
 import json
 import math
@@ -104,6 +105,14 @@ def rand_angle(rng, n, model, wide=False):
     return float(th if rng.random() < 0.6 else -th)
 
 
+SWEEP = False    # set when an obligation is broken: every scalar parameter is drawn from its full quantifier range
+
+
+def rand_distance(rng):
+    """Viewing distances over 1e-3 .. 1e5 m (log-uniform), plus exact powers of two and the range ends."""
+    return float(rng.choice([1.0, 100.0, 737.5, 0.25, 2.0 ** -9, 1e-3, 1e5, 4096.0] + [10 ** rng.uniform(-3, 5) for _ in range(8)]))
+
+
 def rand_case(rng, model, Nmax=256, wide=False, inside=True):
     times, dt, i0 = dyadic_grid(rng)
     if len(times) > Nmax:
@@ -112,6 +121,14 @@ def rand_case(rng, model, Nmax=256, wide=False, inside=True):
     n = rng.choice([1.78, 1.35, 1.5, float(rng.uniform(1.3, 1.8))])
     em, had = rand_fracs(rng)
     E = rand_energy(rng)
+    if SWEEP and rng.random() < 0.7:
+        # full quantifier range: index at any depth / any medium, any fractions, energies far outside the nominal decade range
+        n = float(rng.uniform(1.05, 2.0))
+        em, had = rng.choice([(rng.random(), rng.random()), (1.0, 1.0), (2.0 ** -rng.randint(1, 40), rng.random()), rand_fracs(rng)])
+        if model != "ARZ":
+            E = float(10 ** rng.uniform(-3, 14))
+        else:
+            E = float(10 ** rng.uniform(1.5, 13))      # ARZ: shower energies stay off the critical energy (see the exclusion below)
     if inside:
         k = rng.randint(N // 8, N - 1 - N // 8)
     else:
@@ -119,7 +136,7 @@ def rand_case(rng, model, Nmax=256, wide=False, inside=True):
     frac = rng.choice([0.0, 0.0, 0.5, 0.25, 0.875, 0.125])
     t0 = times[0] + (k + frac) * dt
     return {"model": model, "times": times, "dt": dt, "E": E, "em": em, "had": had, "psi": rand_angle(rng, n, model, wide),
-            "R": float(rng.choice([1.0, 100.0, 737.5, rng.uniform(1, 5000)])), "n": n, "t0": float(t0)}
+            "R": rand_distance(rng), "n": n, "t0": float(t0)}
 
 
 # ---------------------------------------------------------------------------- model execution (floats)
@@ -346,7 +363,7 @@ def corr_values(ctx, mult=1):
     rng = ctx.rng
     cs = list(special_cases(rng, ctx.thorough))
     for model, nq, nt in (("ZHS", 14, 300), ("AVZ", 14, 300), ("ARZ", 4, 80)):
-        for i in range(ctx.n(nq, nt) * (mult if model != "ARZ" else min(mult, 2))):
+        for i in range(ctx.n(nq, nt) * (mult.get(model, 1) if isinstance(mult, dict) else mult)):
             c = rand_case(rng, model, Nmax=(64 if model == "ARZ" else 128) if not ctx.thorough else (96 if model == "ARZ" else 256),
                           inside=(i % 3 != 2))
             if model == "ARZ" and not ctx.thorough and abs(abs(c["psi"]) - theta_c(c["n"])) > 0.06:
@@ -419,8 +436,15 @@ def small(c):
     return d
 
 
+def near_critical(c):
+    """ARZ shower energies within e^0.2 of the critical energy 0.0786 GeV: max_length -> 0, dt_divider explodes."""
+    return c["model"] == "ARZ" and any(0 < e and abs(math.log(e / 7.86e-2)) < 0.2 for e in (c["E"] * c["em"], c["E"] * c["had"]))
+
+
 def probe_case(rng, model, resolved=False):
     c = rand_case(rng, model, Nmax=128 if model == "ARZ" else 256, wide=True, inside=True)
+    while near_critical(c):
+        c = rand_case(rng, model, Nmax=128, wide=True, inside=True)
     if resolved:
         dt = 2.0 ** -35 * rng.choice([1, 2, 3])
         N = rng.choice([128, 256, 255])
@@ -442,9 +466,10 @@ def arz_global_peak(c):
         return 0.0
 
 
-def probes(ctx, mult=1):
+def probes(ctx, mult=1, models=MODELS):
     rng = ctx.rng
     counts = {}
+    MODELS = models          # (shadows the module constant inside this function)
 
     def count(k):
         counts[k] = counts.get(k, 0) + 1
@@ -466,6 +491,8 @@ def probes(ctx, mult=1):
         for it in range(nper):
             c = probe_case(rng, model)
             N, dt = len(c["times"]), c["dt"]
+            if model == "ARZ" and any(0 < e and abs(math.log(e / 7.86e-2)) < 0.2 for e in (c["E"] * c["em"], c["E"] * c["had"])):
+                continue
             v = run(c)
             if v is None:
                 continue
@@ -484,6 +511,12 @@ def probes(ctx, mult=1):
                 err = float(np.abs(v * c["R"] - v1).max())
                 if err > PEAK_TOL * p1:
                     fail("inv_distance", c, "max |value(R)*R - value(1)| = %.3g, peak %.3g" % (err, p1))
+                R2 = rand_distance(rng)
+                v2 = run(c, R=R2)
+                if v2 is not None:
+                    err = float(np.abs(v2 * R2 - v1).max())
+                    if err > PEAK_TOL * p1:
+                        fail("inv_distance", dict(c, R=R2), "max |value(R)*R - value(1)| = %.3g, peak %.3g" % (err, p1))
             # ---- +-psi
             count("even_in_angle")
             vm = run(c, psi=-c["psi"])
@@ -570,7 +603,7 @@ def probes(ctx, mult=1):
         for it in range(ctx.n(25, 400) * mult):
             c = rand_case(rng, model, Nmax=64 if model == "ARZ" else 256, wide=True, inside=(it % 2 == 0))
             c["E"] = float(10 ** rng.uniform(3, 12))
-            c["R"] = float(10 ** rng.uniform(0, 4))
+            c["R"] = float(10 ** rng.uniform(-3, 5))
             if rng.random() < 0.3:
                 c["em"], c["had"] = rng.choice([(1.0, 2.0 ** -rng.randint(8, 30)), (2.0 ** -rng.randint(8, 30), 1.0 - 2.0 ** -8), (0.0, 2.0 ** -rng.randint(8, 12))])
             if rng.random() < 0.5:
@@ -600,6 +633,8 @@ def probes(ctx, mult=1):
     for model in MODELS:
         for it in range(ctx.n(6, 60) * mult):
             c = probe_case(rng, model, resolved=(model == "ARZ"))
+            if model == "ARZ" and not 1.3 <= c["n"] <= 1.8:
+                c["n"] = float(rng.uniform(1.3, 1.8))    # the sampled ARZ peak probe is only claimed in the regime it was validated in (ice)
             N, dt = len(c["times"]), c["dt"]
             tc = theta_c(c["n"])
             if model == "ZHS":
@@ -700,10 +735,16 @@ def run(ctx):
     recorded = json.load(open(PIN_FILE)) if os.path.exists(PIN_FILE) else {}
     changed = sorted(k for k in side["pins"] if recorded.get(k) != side["pins"][k])
     ctx.extra["pins"] = {"current": side["pins"], "changed_since_validation": changed}
-    mult = 2 if changed else 1
+    # which class's translated source differs from the one the proofs were last validated against (directs the search only)
+    src_now = {"ZHS": side["definitions"].get("ZHS_e_omega"), "AVZ": side["definitions"].get("AVZ_tmp"),
+               "ARZ": "|".join(str(side["definitions"].get(k)) for k in sorted(side["definitions"]) if k.startswith("ARZ"))}
+    src_rec = recorded.get("translated_source", {})
+    src_changed = [m for m in MODELS if src_rec.get(m) != hashlib.sha256(str(src_now[m]).encode()).hexdigest()[:16]]
+    ctx.extra["translated_source_changed_since_validation"] = src_changed
+    mult = {m: (2 if any(k.startswith(m) for k in changed) else 1) for m in MODELS}      # a changed pin escalates that class only
     ok = ctx.coq_build("C07")
     try:
-        parts = [(corr_statics(ctx, mult), judge_statics), (corr_avz_spectrum(ctx, mult), judge_avz_spectrum),
+        parts = [(corr_statics(ctx, mult["ARZ"]), judge_statics), (corr_avz_spectrum(ctx, mult["AVZ"]), judge_avz_spectrum),
                  (corr_values(ctx, mult), judge_values)]
         res = run_model(ctx, [c for (cases, _), _ in parts for c in cases], "corr")     # one extraction, one compile
         i = 0
@@ -713,8 +754,29 @@ def run(ctx):
     except Exception as e:
         ctx.oblige("corr:run", False, repr(e)[-1500:])
         ok = False
-    probes(ctx, mult=(2 if (not ok or ctx.broken or changed) else 1))
+    global SWEEP
     if not ok or ctx.broken:
+        # search mode: every scalar parameter over its full quantifier range, effort concentrated on the classes whose
+        # source or correspondence changed (all three when that cannot be told)
+        SWEEP = True
+        suspects = [m for m in MODELS if m in src_changed or any(k.startswith(m) for k in changed)
+                    or any(("corr:values:" + m) in b or ("corr:" in b and m.lower() in b.lower()) for b in ctx.broken)]
+        suspects = suspects or list(MODELS)
+        ctx.extra["search"] = {"sweep_full_ranges": True, "models": suspects}
+        try:
+            probes(ctx, mult=(3 if len(suspects) == 1 else 2), models=tuple(suspects))
+            rest = tuple(m for m in MODELS if m not in suspects)
+            if rest:
+                probes(ctx, mult=1, models=rest)
+        finally:
+            SWEEP = False
+    else:
+        esc = tuple(m for m in MODELS if mult[m] > 1)
+        if esc:
+            probes(ctx, mult=2, models=esc)
+        if len(esc) < len(MODELS):
+            probes(ctx, mult=1, models=tuple(m for m in MODELS if m not in esc))
+    if (not ok or ctx.broken) and "ARZ" in ctx.extra["search"]["models"]:
         # search for a concrete mis-placed pulse (absolute timing is invisible to the relational probes above)
         try:
             probe_arz_oracle(ctx, ctx.n(5, 30))
